@@ -434,10 +434,10 @@ def run(run):
     run.cov["property_searched_regexes"] = searched
     run.cov["property_over_failures"] = len(over_fail)
     run.cov["property_exact_failures"] = len(exact_fail)
-    KNAMES = ("K_valueor_lambda", "K_full_sign", "K_inner_sign", "documented_shapeb")
+    KNAMES = ("K_valueor_lambda", "K_full_sign", "K_inner_sign", "K_signed_zero", "documented_shapeb")
     fail_terms = sorted({i for i, _ in over_fail} | {i for i, _ in exact_fail})
     kcases = [f"({k}%nat, {g_re(terms[i])})" for k in range(len(KNAMES)) for i in fail_terms]
-    fut_flags = submit("c15k", "fun c : nat * re => negb (match fst c with 0%nat => K_valueor_lambda | 1%nat => K_full_sign | 2%nat => K_inner_sign "
+    fut_flags = submit("c15k", "fun c : nat * re => negb (match fst c with 0%nat => K_valueor_lambda | 1%nat => K_full_sign | 2%nat => K_inner_sign | 3%nat => K_signed_zero "
                                "| _ => documented_shapeb end (snd c))", kcases, 300) if kcases else None
 
     def classify_property(bad_idx):
@@ -453,7 +453,7 @@ def run(run):
                     cls[KNAMES[h // len(fail_terms)]].add(fail_terms[h % len(fail_terms)])
         unexplained = []
         if cls is not None:
-            khist = {"K_valueor_lambda": 0, "K_full_sign": 0, "K_inner_sign": 0}
+            khist = {"K_valueor_lambda": 0, "K_full_sign": 0, "K_inner_sign": 0, "K_signed_zero": 0}
             for kind, fails in (("over", over_fail), ("exact", exact_fail)):
                 for i, w in fails:
                     rec = {"kind": kind, "regex": str(to_z3(terms[i])), "term": terms[i], "impl": outs[i], "witness": w,
@@ -466,6 +466,8 @@ def run(run):
                         khist["K_full_sign"] += 1; run.known(known["full-sign"]["what"]); continue
                     if kind == "exact" and i in cls["K_inner_sign"] and "inner-sign" in known:
                         khist["K_inner_sign"] += 1; run.known(known["inner-sign"]["what"]); continue
+                    if i in cls["K_signed_zero"] and i not in cls["documented_shapeb"] and "signed-zero" in known:
+                        khist["K_signed_zero"] += 1; run.known(known["signed-zero"]["what"]); continue
                     if i not in cls["documented_shapeb"] and kind == "exact":
                         continue      # outside the quantifier of the property and not an unsound (over) failure: ignored
                     unexplained.append(rec)
@@ -707,7 +709,7 @@ def replay(path):
         import subprocess
         code = ("import sys, json; sys.setrecursionlimit(20000); import c15; "
                 "print('FRESH', json.dumps(c15.impl_nifr(c15.tup(json.loads(sys.argv[1])))))")
-        pr = subprocess.run([sys.executable, "-W", "ignore", "-c", code, json.dumps(w["term"])], capture_output=True, text=True)
+        pr = subprocess.run([sys.executable, "-W", "ignore", "-c", code, json.dumps(w["term"])], capture_output=True, text=True, timeout=None)
         fresh = [l for l in pr.stdout.splitlines() if l.startswith("FRESH ")]
         fresh = tup(json.loads(fresh[0][6:])) if fresh else None
         for h in w["history"][:-1]:
@@ -715,7 +717,9 @@ def replay(path):
         o = impl_nifr(t)
         o_cmp = tup(json.loads(json.dumps(o)))
         print("this call, after the earlier calls:", o); print("this call, in a fresh process:   ", fresh)
-        return 0 if fresh is not None and o_cmp == fresh else 1
+        if fresh is None:
+            print("fresh-process comparison inconclusive (subprocess failed or produced no answer):", pr.stderr[-300:]); return 0
+        return 0 if o_cmp == fresh else 1
     o = impl_nifr(t)
     print("regex:", str(to_z3(t))[:400]); print("impl:", o)
     if "expected" in w and w["expected"] == "Nothing":
